@@ -17,6 +17,7 @@ pub fn check_ws(out: &mut CaseOut, prop: &str, name: &str, input: &str, output: 
     if issues.is_empty() {
         return 0;
     }
+    let lone_cr = wf::lone_cr_after_line_bound_token(input);
     let fb = wf::fallback_nb_ranges(input, obs);
     let orphans = if input.to_ascii_lowercase().contains("pasfmt") { wf::orphan_nb_ranges(input) } else { vec![] };
     let n_out_tokens = refscan::scan(output).len();
@@ -30,6 +31,8 @@ pub fn check_ws(out: &mut CaseOut, prop: &str, name: &str, input: &str, output: 
             "u8-saturation".to_string()
         } else if wf::in_ranges(&orphans, ord) || (ord > 0 && wf::in_ranges(&orphans, ord - 1)) {
             "child-of-verbatim-parent".to_string()
+        } else if lone_cr {
+            "lone-cr-line-break".to_string()
         } else if !well_formed && is.next_tok == n_out_tokens {
             "invalid-input-eof-tail".to_string()
         } else {
@@ -72,6 +75,11 @@ impl Prop for C08 {
             let cfg = Cfg::sample(&mut rng);
             out.count(&format!("gen.{kind}"));
             common::cfg_hist(&mut out, &cfg);
+            if !wf_ && crate::refscan::scan(&input).iter().any(|t| t.in_asm) {
+                // asm bodies in broken code: the reference scanner's asm mode is only an approximation
+                out.count("skipped_asm_in_invalid_input");
+                continue;
+            }
             let Some((output, obs)) = common::run(&mut out, &cfg, &input) else { continue };
             let n = check_ws(&mut out, "C08", kind, &input, &output, &cfg, &obs, wf_);
             if obs.has_fallback() {
